@@ -4,21 +4,88 @@ import copy
 from units import engine as _e
 
 S = _e.S
+
+
+def _peel(n):
+    while n.get('kind') in ('ImplicitCastExpr', 'ParenExpr', 'MaterializeTemporaryExpr', 'CXXBindTemporaryExpr', 'ExprWithCleanups', 'CXXConstructExpr') and len(n.get('inner', [])) == 1:
+        n = n['inner'][0]
+    return n
+
+
+def _container_of(tr, node):
+    """the container expression x of an iterator expression x.begin() / x.end()"""
+    n = _peel(node)
+    if n.get('kind') == 'CXXMemberCallExpr' and n['inner'][0].get('kind') == 'MemberExpr' and n['inner'][0].get('name') in ('begin', 'end'):
+        return tr.addr(tr.expr(n['inner'][0]['inner'][0]))
+    raise Exception('iterator expression is not x.begin() / x.end()')
+
+
+def _insert_range(tr, n, obj, args, argnodes):
+    """v.insert(v.end(), w.begin(), w.end()): append the whole of w to v"""
+    dst, a, b = _container_of(tr, argnodes[0]), _container_of(tr, argnodes[1]), _container_of(tr, argnodes[2])
+    if dst != obj or a != b:
+        raise Exception('insert is not an append of a whole container')
+    return 'verif_append_requests(%s, %s)' % (obj, a)
+
 _b = copy.deepcopy(_e.UNIT)
 UNIT = {k: v for k, v in _b.items() if k not in ('functions',)}
 UNIT['name'] = 'engine_loop'
 UNIT['need_fields'] = {'BuildEngineImpl': ['taskInfosMutex', 'finishedTaskInfosMutex', 'inputRequestsMutex', 'numOutstandingUnfinishedTasks', 'readyTaskInfos', 'finishedInputRequests', 'inputRequests', 'finishedTaskInfos', 'ruleInfosToScan', 'currentEpoch', 'db', 'delegate']}
-UNIT['after_structs'] = _b['after_structs'] + 'struct BuildEngineImpl_TaskInputRequest g_req; unsigned g_provided;\n'
-UNIT['call_patterns'] = list(_b.get('call_patterns', [])) + [(r'c:.*value_type\(const .*(TaskInputRequest|RuleScanRequest) &\)', '(*$0)'), (r'c:(BuildEngineImpl::)?(TaskInputRequest|RuleScanRequest)\(const .*&\)', '(*$0)')]
+UNIT['after_structs'] = _b['after_structs'] + 'struct BuildEngineImpl_TaskInputRequest g_req; unsigned g_provided;\n#include "models/engine_loop.h"\n'
+UNIT['call_patterns'] = list(_b.get('call_patterns', [])) + [(r'c:Twine\(.*\)', '((void *)($0, 0))'), (r'c:.*(unordered_map<Task \*.*>::iterator|_Node_iterator<.*)\(.*\)', '$0'), (r'c:.*value_type\(const .*(TaskInputRequest|RuleScanRequest) &\)', '(*$0)'), (r'c:(BuildEngineImpl::)?(TaskInputRequest|RuleScanRequest)\(const .*&\)', '(*$0)')]
+UNIT['type_patterns'] = list(_b.get('type_patterns', [])) + [
+    (r'(std::)?unordered_map<Task \*, (BuildEngineImpl::)?TaskInfo.*>::iterator', 'struct taskmap_it'), (r'(std::)?(__detail::)?_Node_iterator<(std::)?pair<Task \*const, .*', 'struct taskmap_it'),
+    (r'(std::)?unordered_map<Task \*, (BuildEngineImpl::)?TaskInfo.*>', 'struct taskmap')]
+UNIT['by_value'] = list(_b.get('by_value', [])) + ['struct taskmap_it']
+UNIT['predefined_structs'] = list(_b.get('predefined_structs', [])) + ['taskmap', 'taskmap_it']
+UNIT['prelude'] = _b['prelude'] + 'struct taskmap { size_t n; }; struct taskmap_it { struct Task *task; };\n'
+UNIT['types'] = dict(_b['types'], **{'std::string': 'vstr', 'string': 'vstr', 'basic_string<char>': 'vstr', 'Twine': 'void *', 'llvm::Twine': 'void *'})
+UNIT['by_pointer'] = list(_b.get('by_pointer', [])) + ['vstr']
+UNIT['no_translate'] = list(_b.get('no_translate', [])) + ['scanRule', 'demandRule', 'getPendingScanRecord', 'getPendingTaskInfo', 'cancelRemainingTasks', 'append', 'setRuleResult', 'updateStatus']
 UNIT['drop_locals'] = _b.get('drop_locals', []) + [r'TracingEngineQueueItemEvent']
 UNIT['calls'] = dict(_b['calls'], **{
     'm:@vec_TaskInfoPtr::front': '(*vec_TaskInfoPtr_front($o))', 'm:@vec_TaskInfoPtr::pop_front': 'vec_TaskInfoPtr_pop_front', 'm:@vec_TaskInfoPtr::empty': 'vec_TaskInfoPtr_empty',
     'm:@vec_TaskInfoPtr::back': '(*vec_TaskInfoPtr_back($o))', 'm:@vec_TaskInfoPtr::pop_back': 'vec_TaskInfoPtr_pop_back',
     'm:@vec_TaskInputRequest::back': '(*vec_TaskInputRequest_back($o))', 'm:@vec_TaskInputRequest::pop_back': 'vec_TaskInputRequest_pop_back', 'm:@vec_TaskInputRequest::empty': 'vec_TaskInputRequest_empty',
+    'm:@vec_TaskInputRequest::insert': _insert_range, 'm:@struct taskmap::find': ('verif_taskinfos_find', 'v'), 'm:@struct taskmap::erase': ('verif_taskinfos_erase', 'v'),
+    'm:DependencyKeyIDs::append': 'DependencyKeyIDs_append', 'range:@struct DependencyKeyIDs': ('DependencyKeyIDs_size', 'verif_deps_at'),
+    'm:DependencyKeyIDs::push_back': ('DependencyKeyIDs_push_back3', 'vvv'), 'm:RuleInfo::getPendingScanRecord': 'verif_pending_scan_record', 'm:BuildEngineImpl::RuleInfo::getPendingScanRecord': 'verif_pending_scan_record',
+    'm:RuleInfo::getPendingTaskInfo': 'verif_pending_task_info', 'm:BuildEngineImpl::RuleInfo::getPendingTaskInfo': 'verif_pending_task_info',
     'm:@vec_TaskInputRequest::front': '(*vec_TaskInputRequest_front($o))', 'm:@vec_TaskInputRequest::pop_front': 'vec_TaskInputRequest_pop_front',
 })
 KEEP = []
 UNIT['stubs'] = dict({k: v for k, v in _b['stubs'].items() if k in KEEP}, **{
+    'Rule_updateStatus': {'params': 'struct Rule *self, struct BuildEngine *engine, int status', 'requires': [], 'assigns': ['g_status_updates'], 'ensures': ['1']},
+    # DependencyKeyIDs::append (include/llbuild/Core/DependencyKeyIDs.h, two vector inserts): assumed -- appends the other list in order
+    'DependencyKeyIDs_append': {'params': 'struct DependencyKeyIDs *self, struct DependencyKeyIDs *rhs',
+                                'requires': ['self->items.len + rhs->items.len <= self->items.cap'], 'assigns': ['self->items.len', '__CPROVER_object_whole(self->items.ptr)'],
+                                'ensures': ['self->items.len == OLD(self->items.len) + rhs->items.len',
+                                            '(g_k < rhs->items.len) ==> (self->items.ptr[OLD(self->items.len) + g_k].keyID._value == rhs->items.ptr[g_k].keyID._value && (self->items.ptr[OLD(self->items.len) + g_k].orderOnly != 0) == (rhs->items.ptr[g_k].orderOnly != 0) && (self->items.ptr[OLD(self->items.len) + g_k].singleUse != 0) == (rhs->items.ptr[g_k].singleUse != 0))']},
+    # finishedInputRequests.insert(end, requestedBy.begin(), requestedBy.end()) (libstdc++ vector range insert): assumed -- appends in order
+    'verif_append_requests': {'params': 'vec_TaskInputRequest *dst, vec_TaskInputRequest *src',
+                              'requires': ['dst->len + src->len <= dst->cap'], 'assigns': ['dst->len', '__CPROVER_object_whole(dst->ptr)'],
+                              'ensures': ['dst->len == OLD(dst->len) + src->len',
+                                          '(g_k < src->len) ==> (dst->ptr[OLD(dst->len) + g_k].taskInfo == src->ptr[g_k].taskInfo && dst->ptr[OLD(dst->len) + g_k].inputID == src->ptr[g_k].inputID && dst->ptr[OLD(dst->len) + g_k].inputRuleInfo == src->ptr[g_k].inputRuleInfo)']},
+    'BuildDB_setRuleResult': {'ret': '_Bool', 'params': 'struct BuildDB *self, struct KeyID keyID, struct Rule *rule, struct Result *ruleResult, void *error_out',
+                              # what is persisted is the COMPLETED record: after setComplete (this epoch) and after the discovered dependencies were appended
+                              'requires': [('P:C03,P:C04,P:C01', 'ruleResult == &g_ri_a->result && g_ri_a->state == %sComplete && ruleResult->builtAt == g_engine->currentEpoch' % S),
+                                           ('P:C03,P:C11', 'ruleResult->dependencies.items.len == g_deps_before + g_taskinfo->discoveredDependencies.items.len')],
+                              'assigns': ['g_db_writes', 'g_db_result', 'g_db_key'],
+                              'ensures': ['g_db_writes == OLD(g_db_writes) + 1 && g_db_result == (const void *)ruleResult && g_db_key == keyID._value && (RESULT != 0) == (g_db_ok != 0)']},
+    'BuildEngineImpl_cancelRemainingTasks': {'params': 'struct BuildEngineImpl *self', 'requires': [('P:C05', '!self->finishedTaskInfosMutex.held && !self->taskInfosMutex.held')], 'assigns': ['g_cancels'], 'ensures': ['g_cancels == OLD(g_cancels) + 1']},
+    'BuildEngineDelegate_error': {'params': 'struct BuildEngineDelegate *self, void *message', 'requires': [], 'assigns': ['g_errors'], 'ensures': ['g_errors == OLD(g_errors) + 1']},
+    # scanRule / demandRule: summaries of the contracts proved in U-eng (unit engine: SCAN_ENS "(RESULT == 0) == isScanning", "RESULT => scanned";
+    # DEMAND_ENS "(RESULT != 0) == complete in this epoch", "RESULT == 0 => in progress"); a scanning rule has a scan record, an in-progress rule a task record
+    'BuildEngineImpl_scanRule': {'ret': '_Bool', 'params': 'struct BuildEngineImpl *self, struct BuildEngineImpl_RuleInfo *ruleInfo', 'requires': [],
+                                 'assigns': ['ruleInfo->state', 'ruleInfo->inProgressInfo', 'g_scans', 'g_scan_rule'],
+                                 'ensures': ['g_scans == OLD(g_scans) + 1 && g_scan_rule == ruleInfo && (RESULT != 0) == (g_scan_answer != 0)', '(RESULT == 0) == (ruleInfo->state == BuildEngineImpl_RuleInfo_StateKind_IsScanning)',
+                                             '(RESULT != 0) ==> (ruleInfo->state == BuildEngineImpl_RuleInfo_StateKind_NeedsToRun || ruleInfo->state == BuildEngineImpl_RuleInfo_StateKind_DoesNotNeedToRun || ruleInfo->state == BuildEngineImpl_RuleInfo_StateKind_InProgressWaiting || ruleInfo->state == BuildEngineImpl_RuleInfo_StateKind_InProgressComputing || (ruleInfo->state == BuildEngineImpl_RuleInfo_StateKind_Complete && ruleInfo->result.builtAt == self->currentEpoch))']},
+    'BuildEngineImpl_demandRule': {'ret': '_Bool', 'params': 'struct BuildEngineImpl *self, struct BuildEngineImpl_RuleInfo *ruleInfo',
+                                   'requires': [('P:C02', '(ruleInfo->state == BuildEngineImpl_RuleInfo_StateKind_NeedsToRun || ruleInfo->state == BuildEngineImpl_RuleInfo_StateKind_DoesNotNeedToRun || ruleInfo->state == BuildEngineImpl_RuleInfo_StateKind_InProgressWaiting || ruleInfo->state == BuildEngineImpl_RuleInfo_StateKind_InProgressComputing || (ruleInfo->state == BuildEngineImpl_RuleInfo_StateKind_Complete && ruleInfo->result.builtAt == self->currentEpoch))')],
+                                   'assigns': ['ruleInfo->state', 'ruleInfo->inProgressInfo', 'ruleInfo->result.builtAt', 'g_demands', 'g_demand_rule'],
+                                   'ensures': ['g_demands == OLD(g_demands) + 1 && g_demand_rule == ruleInfo && (RESULT != 0) == (g_demand_answer != 0)',
+                                               '(RESULT != 0) == (ruleInfo->state == BuildEngineImpl_RuleInfo_StateKind_Complete && ruleInfo->result.builtAt == self->currentEpoch)',
+                                               '(RESULT == 0) ==> (ruleInfo->state == BuildEngineImpl_RuleInfo_StateKind_InProgressWaiting || ruleInfo->state == BuildEngineImpl_RuleInfo_StateKind_InProgressComputing)']},
     'Task_provideValue': {
         'params': 'struct Task *self, struct TaskInterface ti, uintptr_t inputID, struct KeyType *key, vbytes value',
         # a requested input is provided to the task that requested it, under the id it chose, before inputs-available, with the input rule's
@@ -85,6 +152,119 @@ UNIT['functions'] = {
             # the task becomes ready exactly when this was its last outstanding request
             ('P:C06', '(g_taskinfo->waitCount == 0) ? (self->readyTaskInfos.len == OLD(self->readyTaskInfos.len) + 1 && self->readyTaskInfos.ptr[self->readyTaskInfos.len - 1] == g_taskinfo) : (self->readyTaskInfos.len == OLD(self->readyTaskInfos.len))'),
             ('P:C06,P:C07', '*didWork != 0'),
+        ],
+    },
+    # body of the finished-task loop: the record of one reported task is completed, persisted and its waiters are woken
+    'BuildEngineImpl::executeTasks#finish': {
+        'of': 'BuildEngineImpl::executeTasks', 'cname': 'BuildEngineImpl_executeTasks_finish_step',
+        'segment': {'kind': 'CompoundStmt', 'mentions': ['finishedTaskInfos', 'setComplete', 'setRuleResult', 'discoveredDependencies', 'taskInfos'], 'excludes': ['readyTaskInfos', 'provideValue'], 'exits': True},
+        'unwindset_note': '',
+        'requires': ['__CPROVER_is_fresh(self, sizeof(*self))', 'g_engine == self', '__CPROVER_is_fresh(didWork, sizeof(*didWork))', '__CPROVER_is_fresh(__seg_exit, sizeof(int))', '__CPROVER_is_fresh(__seg_retval, sizeof(_Bool))',
+                     '__CPROVER_is_fresh(self->delegate, sizeof(*self->delegate))', 'self->db != 0 ==> __CPROVER_is_fresh(self->db, 1)',
+                     'VEC_OKN(self->finishedTaskInfos, struct BuildEngineImpl_TaskInfo *, 12)', 'VEC_OKN(self->inputRequests, struct BuildEngineImpl_TaskInputRequest, 12)',
+                     'VEC_OKN(self->finishedInputRequests, struct BuildEngineImpl_TaskInputRequest, 12)', 'VEC_OKN(self->ruleInfosToScan, struct BuildEngineImpl_RuleScanRequest, 12)',
+                     '__CPROVER_is_fresh(g_taskinfo, sizeof(struct BuildEngineImpl_TaskInfo))',
+                     'self->finishedTaskInfos.len > 0 ==> __CPROVER_pointer_in_range_dfcc(g_taskinfo, self->finishedTaskInfos.ptr[self->finishedTaskInfos.len - 1], g_taskinfo)',
+                     '__CPROVER_is_fresh(g_ri_a, sizeof(struct BuildEngineImpl_RuleInfo))', '__CPROVER_pointer_in_range_dfcc(g_ri_a, g_taskinfo->forRuleInfo, g_ri_a)',
+                     '__CPROVER_is_fresh(g_ri_a->rule, sizeof(struct Rule))', '__CPROVER_is_fresh(g_taskinfo->task, sizeof(struct Task))',
+                     # invariants of a reported task: its rule is computing and points back at it
+                     'g_ri_a->state == BuildEngineImpl_RuleInfo_StateKind_InProgressComputing && PTI(g_ri_a) == g_taskinfo',
+                     'VEC_OKN(g_ri_a->result.dependencies.items, struct KeyIDAndFlags, 12)', 'VEC_OKN(g_taskinfo->discoveredDependencies.items, struct KeyIDAndFlags, 12)',
+                     'VEC_OKN(g_taskinfo->requestedBy, struct BuildEngineImpl_TaskInputRequest, 12)', 'VEC_OKN(g_taskinfo->deferredScanRequests, struct BuildEngineImpl_RuleScanRequest, 12)',
+                     'g_taskinfo->discoveredDependencies.items.len <= 4 && g_taskinfo->requestedBy.len <= 4 && g_taskinfo->deferredScanRequests.len <= 4',
+                     'g_ri_a->result.dependencies.items.len + 4 <= g_ri_a->result.dependencies.items.cap && self->inputRequests.len + 4 <= self->inputRequests.cap',
+                     'self->finishedInputRequests.len + 4 <= self->finishedInputRequests.cap && self->ruleInfosToScan.len + 4 <= self->ruleInfosToScan.cap',
+                     '!self->finishedTaskInfosMutex.held && !self->inputRequestsMutex.held && !self->taskInfosMutex.held', 'self->numOutstandingUnfinishedTasks >= 1 && self->taskInfos.n >= 1',
+                     'g_db_writes == 0 && g_cancels == 0 && g_errors == 0', 'g_k < 4', 'g_deps_before == g_ri_a->result.dependencies.items.len'],
+        'assigns': ['*__seg_exit', '*__seg_retval', '*didWork', 'self->finishedTaskInfos.len', 'self->finishedTaskInfosMutex.held', 'self->inputRequestsMutex.held', 'self->taskInfosMutex.held',
+                    'g_ri_a->state', 'g_ri_a->inProgressInfo', 'g_ri_a->result.builtAt', 'g_ri_a->result.end', 'g_ri_a->result.dependencies.items.len', '__CPROVER_object_whole(g_ri_a->result.dependencies.items.ptr)',
+                    'self->inputRequests.len', '__CPROVER_object_whole(self->inputRequests.ptr)', 'self->finishedInputRequests.len', '__CPROVER_object_whole(self->finishedInputRequests.ptr)',
+                    'self->ruleInfosToScan.len', '__CPROVER_object_whole(self->ruleInfosToScan.ptr)', 'self->numOutstandingUnfinishedTasks', 'self->taskInfos.n',
+                    'g_db_writes', 'g_db_result', 'g_db_key', 'g_cancels', 'g_errors', 'g_erased_task', 'g_status_updates'],
+        'ensures': [
+            # nothing reported: the phase ends, nothing changes
+            ('P:C06', '(OLD(self->finishedTaskInfos.len) == 0) ==> (*__seg_exit == 3 && self->numOutstandingUnfinishedTasks == OLD(self->numOutstandingUnfinishedTasks) && g_db_writes == 0 && g_ri_a->state == OLD(g_ri_a->state))'),
+            # the rule is complete in this build; value, computedAt and signature are those taskIsComplete stored (frame)
+            ('P:C01,P:C02', '(OLD(self->finishedTaskInfos.len) != 0) ==> (g_ri_a->state == BuildEngineImpl_RuleInfo_StateKind_Complete && g_ri_a->result.builtAt == self->currentEpoch && PTI(g_ri_a) == 0)'),
+            # discovered dependencies are appended, in order, to the recorded ones
+            ('P:C01,P:C11', '(OLD(self->finishedTaskInfos.len) != 0) ==> g_ri_a->result.dependencies.items.len == OLD(g_ri_a->result.dependencies.items.len) + g_taskinfo->discoveredDependencies.items.len'),
+            ('P:C01,P:C11', '(OLD(self->finishedTaskInfos.len) != 0 && g_k < g_taskinfo->discoveredDependencies.items.len) ==> (g_ri_a->result.dependencies.items.ptr[OLD(g_ri_a->result.dependencies.items.len) + g_k].keyID._value == g_taskinfo->discoveredDependencies.items.ptr[g_k].keyID._value)'),
+            # ... and each is demanded in this build (a dummy request without a task), with its flags
+            ('P:C11,P:C01', '(OLD(self->finishedTaskInfos.len) != 0 && (self->db == 0 || g_db_ok)) ==> self->inputRequests.len == OLD(self->inputRequests.len) + g_taskinfo->discoveredDependencies.items.len'),
+            ('P:C11,P:C01', '(OLD(self->finishedTaskInfos.len) != 0 && g_k < g_taskinfo->discoveredDependencies.items.len) ==> (self->inputRequests.ptr[OLD(self->inputRequests.len) + g_k].taskInfo == 0 && '
+                            'self->inputRequests.ptr[OLD(self->inputRequests.len) + g_k].inputRuleInfo == RI_FOR(g_taskinfo->discoveredDependencies.items.ptr[g_k].keyID) && '
+                            '(self->inputRequests.ptr[OLD(self->inputRequests.len) + g_k].orderOnly != 0) == (g_taskinfo->discoveredDependencies.items.ptr[g_k].orderOnly != 0) && '
+                            '(self->inputRequests.ptr[OLD(self->inputRequests.len) + g_k].singleUse != 0) == (g_taskinfo->discoveredDependencies.items.ptr[g_k].singleUse != 0))'),
+            # the completed record is handed to the database exactly once (when one is attached)
+            ('P:C03,P:C04,P:C01', '(OLD(self->finishedTaskInfos.len) != 0) ==> (g_db_writes == (self->db != 0 ? 1 : 0) && (self->db == 0 || (g_db_result == (const void *)&g_ri_a->result && g_db_key == g_ri_a->keyID._value)))'),
+            # a failed write fails the build after draining; the task is not counted as outstanding while draining
+            ('P:C03,P:C05', '(OLD(self->finishedTaskInfos.len) != 0 && self->db != 0 && !g_db_ok) ==> (*__seg_exit == 1 && *__seg_retval == 0 && g_cancels == 1 && g_errors == 1 && self->numOutstandingUnfinishedTasks == OLD(self->numOutstandingUnfinishedTasks) - 1)'),
+            # success: every waiter is woken -- requests for this rule's value move to the finished-input queue in order, deferred scans are re-queued
+            ('P:C06', '(OLD(self->finishedTaskInfos.len) != 0 && (self->db == 0 || g_db_ok)) ==> (*__seg_exit == 0 && self->finishedInputRequests.len == OLD(self->finishedInputRequests.len) + g_taskinfo->requestedBy.len && '
+                      'self->ruleInfosToScan.len == OLD(self->ruleInfosToScan.len) + g_taskinfo->deferredScanRequests.len)'),
+            ('P:C06', '(OLD(self->finishedTaskInfos.len) != 0 && (self->db == 0 || g_db_ok) && g_k < g_taskinfo->requestedBy.len) ==> (self->finishedInputRequests.ptr[OLD(self->finishedInputRequests.len) + g_k].taskInfo == g_taskinfo->requestedBy.ptr[g_k].taskInfo && '
+                      'self->finishedInputRequests.ptr[OLD(self->finishedInputRequests.len) + g_k].inputID == g_taskinfo->requestedBy.ptr[g_k].inputID)'),
+            ('P:C02', '(OLD(self->finishedTaskInfos.len) != 0 && (self->db == 0 || g_db_ok) && g_k < g_taskinfo->deferredScanRequests.len) ==> (self->ruleInfosToScan.ptr[OLD(self->ruleInfosToScan.len) + g_k].ruleInfo == g_taskinfo->deferredScanRequests.ptr[g_k].ruleInfo)'),
+            # the task stops counting as outstanding and leaves the task table, under the table's mutex
+            ('P:C05,P:C06', '(OLD(self->finishedTaskInfos.len) != 0 && (self->db == 0 || g_db_ok)) ==> (self->numOutstandingUnfinishedTasks == OLD(self->numOutstandingUnfinishedTasks) - 1 && self->taskInfos.n == OLD(self->taskInfos.n) - 1 && g_erased_task == g_taskinfo->task)'),
+            ('P:C06', '!self->finishedTaskInfosMutex.held && !self->inputRequestsMutex.held && !self->taskInfosMutex.held'),
+            ('P:C06,P:C07', '(OLD(self->finishedTaskInfos.len) != 0) ==> *didWork != 0'),
+        ],
+        'loops': {
+            0: {'assigns': ['$i', 'self->inputRequests.len', '__CPROVER_object_whole(self->inputRequests.ptr)'],
+                'invariant': ['$i <= $range->items.len && self->inputRequestsMutex.held && self->inputRequests.len == __CPROVER_loop_entry(self->inputRequests.len) + $i',
+                              '(g_k < $i) ==> (self->inputRequests.ptr[__CPROVER_loop_entry(self->inputRequests.len) + g_k].taskInfo == 0 && '
+                              'self->inputRequests.ptr[__CPROVER_loop_entry(self->inputRequests.len) + g_k].inputRuleInfo == RI_FOR(g_taskinfo->discoveredDependencies.items.ptr[g_k].keyID) && '
+                              '(self->inputRequests.ptr[__CPROVER_loop_entry(self->inputRequests.len) + g_k].orderOnly != 0) == (g_taskinfo->discoveredDependencies.items.ptr[g_k].orderOnly != 0) && '
+                              '(self->inputRequests.ptr[__CPROVER_loop_entry(self->inputRequests.len) + g_k].singleUse != 0) == (g_taskinfo->discoveredDependencies.items.ptr[g_k].singleUse != 0))'],
+                'decreases': '$range->items.len - $i'},
+            1: {'assigns': ['$i', 'self->ruleInfosToScan.len', '__CPROVER_object_whole(self->ruleInfosToScan.ptr)'],
+                'invariant': ['$i <= $range->len && self->ruleInfosToScan.len == __CPROVER_loop_entry(self->ruleInfosToScan.len) + $i',
+                              '(g_k < $i) ==> (self->ruleInfosToScan.ptr[__CPROVER_loop_entry(self->ruleInfosToScan.len) + g_k].ruleInfo == g_taskinfo->deferredScanRequests.ptr[g_k].ruleInfo)'],
+                'decreases': '$range->len - $i'},
+        },
+    },
+    # body of the input-request loop: one request (task -> input key) is taken, the input is scanned / demanded, and the dependency is recorded
+    'BuildEngineImpl::executeTasks#request': {
+        'of': 'BuildEngineImpl::executeTasks', 'cname': 'BuildEngineImpl_executeTasks_request_step',
+        'segment': {'kind': 'CompoundStmt', 'mentions': ['inputRequests', 'scanRule', 'demandRule', 'pausedInputRequests', 'requestedBy', 'found'], 'excludes': ['readyTaskInfos', 'provideValue', 'finishedTaskInfos'], 'exits': True},
+        'requires': ['__CPROVER_is_fresh(self, sizeof(*self))', 'g_engine == self', '__CPROVER_is_fresh(didWork, sizeof(*didWork))', '__CPROVER_is_fresh(__seg_exit, sizeof(int))',
+                     'VEC_OKN(self->inputRequests, struct BuildEngineImpl_TaskInputRequest, 8)', 'VEC_OKN(self->finishedInputRequests, struct BuildEngineImpl_TaskInputRequest, 8) && self->finishedInputRequests.len < 8',
+                     # the requested input's rule record, and (unless it is the build's own dummy request) the requesting task and its rule record
+                     '__CPROVER_is_fresh(g_ri_b, sizeof(struct BuildEngineImpl_RuleInfo))', 'self->inputRequests.len > 0 ==> __CPROVER_pointer_in_range_dfcc(g_ri_b, self->inputRequests.ptr[0].inputRuleInfo, g_ri_b)',
+                     '__CPROVER_is_fresh(g_taskinfo, sizeof(struct BuildEngineImpl_TaskInfo))', '(self->inputRequests.len > 0 && !g_dummy) ==> __CPROVER_pointer_in_range_dfcc(g_taskinfo, self->inputRequests.ptr[0].taskInfo, g_taskinfo)',
+                     '(self->inputRequests.len > 0 && g_dummy) ==> self->inputRequests.ptr[0].taskInfo == 0',
+                     '__CPROVER_is_fresh(g_ri_a, sizeof(struct BuildEngineImpl_RuleInfo))', '__CPROVER_pointer_in_range_dfcc(g_ri_a, g_taskinfo->forRuleInfo, g_ri_a)',
+                     'VEC_OKN(g_ri_a->result.dependencies.items, struct KeyIDAndFlags, 8) && g_ri_a->result.dependencies.items.len < 8',
+                     '!self->inputRequestsMutex.held', 'g_scans == 0 && g_demands == 0'],
+        'assigns': ['*__seg_exit', '*didWork', 'self->inputRequests', 'self->inputRequestsMutex.held', 'g_scans', 'g_demands', 'g_scan_rule', 'g_demand_rule',
+                    'g_ri_b->state', 'g_ri_b->inProgressInfo', 'g_ri_b->result.builtAt',
+                    'g_ri_a->result.dependencies.items.len', '__CPROVER_object_whole(g_ri_a->result.dependencies.items.ptr)',
+                    'self->finishedInputRequests.len', '__CPROVER_object_whole(self->finishedInputRequests.ptr)',
+                    'g_psr', '__CPROVER_object_whole(g_psr_buf)', 'g_pti', '__CPROVER_object_whole(g_pti_buf)'],
+        'ensures': [
+            ('P:C06', '(OLD(self->inputRequests.len) == 0) ==> (*__seg_exit == 3 && g_scans == 0 && g_demands == 0 && g_ri_a->result.dependencies.items.len == OLD(g_ri_a->result.dependencies.items.len))'),
+            # requests are taken first in, first out (dependency recording relies on it), under the queue's mutex
+            ('P:C06,P:C01', '(OLD(self->inputRequests.len) != 0) ==> (self->inputRequests.len == OLD(self->inputRequests.len) - 1 && self->inputRequests.ptr == OLD(self->inputRequests.ptr) + 1 && g_scans == 1 && g_scan_rule == g_ri_b && *didWork != 0)'),
+            ('P:C06', '!self->inputRequestsMutex.held'),
+            # input still being scanned: the request is parked unchanged on the input's scan record; nothing is demanded or recorded yet
+            ('P:C02,P:C06', '(OLD(self->inputRequests.len) != 0 && !g_scan_answer) ==> (*__seg_exit == 2 && g_demands == 0 && g_psr.pausedInputRequests.len == 1 && g_psr_buf[0].inputRuleInfo == g_ri_b && g_psr_buf[0].inputID == OLD(self->inputRequests.ptr[0].inputID) && '
+                            '(g_dummy ? g_psr_buf[0].taskInfo == 0 : g_psr_buf[0].taskInfo == g_taskinfo) && g_ri_a->result.dependencies.items.len == OLD(g_ri_a->result.dependencies.items.len) && self->finishedInputRequests.len == OLD(self->finishedInputRequests.len))'),
+            # input scanned: it is demanded exactly once
+            ('P:C01,P:C02', '(OLD(self->inputRequests.len) != 0 && g_scan_answer) ==> (g_demands == 1 && g_demand_rule == g_ri_b)'),
+            # the build's own request records nothing
+            ('P:C01', '(OLD(self->inputRequests.len) != 0 && g_scan_answer && g_dummy) ==> (g_ri_a->result.dependencies.items.len == OLD(g_ri_a->result.dependencies.items.len) && self->finishedInputRequests.len == OLD(self->finishedInputRequests.len) && g_pti.requestedBy.len == OLD(g_pti.requestedBy.len))'),
+            # a task's request is recorded as a dependency of the REQUESTING rule: the input's key with the request's flags, appended (so in request order), exactly once
+            ('P:C01,P:C02,P:C11', '(OLD(self->inputRequests.len) != 0 && g_scan_answer && !g_dummy) ==> (g_ri_a->result.dependencies.items.len == OLD(g_ri_a->result.dependencies.items.len) + 1 && '
+                                  'g_ri_a->result.dependencies.items.ptr[OLD(g_ri_a->result.dependencies.items.len)].keyID._value == g_ri_b->keyID._value && '
+                                  '(g_ri_a->result.dependencies.items.ptr[OLD(g_ri_a->result.dependencies.items.len)].orderOnly != 0) == (OLD(self->inputRequests.ptr[0].orderOnly) != 0) && '
+                                  '(g_ri_a->result.dependencies.items.ptr[OLD(g_ri_a->result.dependencies.items.len)].singleUse != 0) == (OLD(self->inputRequests.ptr[0].singleUse) != 0))'),
+            # ... and then waits for the input: delivered at once when the input is complete in this build, otherwise parked on the input's task
+            ('P:C06', '(OLD(self->inputRequests.len) != 0 && g_scan_answer && !g_dummy && g_demand_answer) ==> (self->finishedInputRequests.len == OLD(self->finishedInputRequests.len) + 1 && '
+                      'self->finishedInputRequests.ptr[OLD(self->finishedInputRequests.len)].taskInfo == g_taskinfo && self->finishedInputRequests.ptr[OLD(self->finishedInputRequests.len)].inputRuleInfo == g_ri_b && '
+                      'self->finishedInputRequests.ptr[OLD(self->finishedInputRequests.len)].inputID == OLD(self->inputRequests.ptr[0].inputID) && g_ri_b->state == BuildEngineImpl_RuleInfo_StateKind_Complete && g_ri_b->result.builtAt == self->currentEpoch && g_pti.requestedBy.len == OLD(g_pti.requestedBy.len))'),
+            ('P:C06', '(OLD(self->inputRequests.len) != 0 && g_scan_answer && !g_dummy && !g_demand_answer) ==> (self->finishedInputRequests.len == OLD(self->finishedInputRequests.len) && g_pti.requestedBy.len == 1 && '
+                      'g_pti_buf[0].taskInfo == g_taskinfo && g_pti_buf[0].inputRuleInfo == g_ri_b && g_pti_buf[0].inputID == OLD(self->inputRequests.ptr[0].inputID))'),
         ],
     },
 }
